@@ -52,6 +52,7 @@ class Task:
     result: object = None
     exc: BaseException | None = None
     seq: int = 0
+    killed: bool = False  # terminated from outside (Pool.terminate): never scheduled again
 
 
 class Sched:
@@ -130,7 +131,7 @@ class Sched:
         out = []
         for name in self.order:
             t = self.tasks[name]
-            if t.done:
+            if t.done or t.killed:
                 continue
             for opt in t.options_fn():
                 out.append((name, t.label, opt))
@@ -140,11 +141,11 @@ class Sched:
         """Run until all tasks are done.  Raises Deadlock."""
         try:
             while True:
-                if all(t.done for t in self.tasks.values()):
+                if all(t.done or t.killed for t in self.tasks.values()):
                     return
                 en = self.enabled()
                 if not en:
-                    waiting = {n: t.label for n, t in self.tasks.items() if not t.done}
+                    waiting = {n: t.label for n, t in self.tasks.items() if not (t.done or t.killed)}
                     raise Deadlock(waiting)
                 self.steps += 1
                 if self.steps > self.max_steps:
@@ -364,21 +365,27 @@ class FakePool:
         FakePool.counter += 1
         self.id = FakePool.counter
         self.calls = 0
+        self.children: list[Task] = []
 
     def __enter__(self):
         return self
 
     def __exit__(self, *a):
+        self.terminate()  # like multiprocessing.Pool.__exit__
         return None
 
     def close(self):
         pass
 
     def join(self):
-        pass
+        self.s.point(("pool-join", self.id), lambda: [None] if all(c.done for c in self.children) else [])
 
     def terminate(self):
-        pass
+        # worker processes are killed: tasks that have not finished never will
+        for c in self.children:
+            if not c.done:
+                c.killed = True
+                self.s.emit(ev="killed", task=c.name)
 
     # completion orders -------------------------------------------------
     def _completion_order(self, ntasks: int) -> list[int]:
@@ -430,12 +437,29 @@ class FakePool:
         communicate through queues); results returned in order; the first
         exception is re-raised in the caller after all tasks finished (like
         Pool.map)."""
+        return self.map_async(func, iterable, chunksize).get()
+
+    def starmap(self, func, iterable, chunksize=None):
+        return self.map(_Star(func), iterable, chunksize)
+
+    def imap(self, func, iterable, chunksize=1):
+        yield from self.map(func, iterable, chunksize)
+
+    def apply_async(self, func, args=(), kwds=None, callback=None, error_callback=None):
+        res = self.map_async(_Apply(func, kwds or {}), [args])
+        return _Single(res)
+
+    def apply(self, func, args=(), kwds=None):
+        return self.apply_async(func, args, kwds).get()
+
+    def map_async(self, func, iterable, chunksize=None, callback=None, error_callback=None):
+        """Tasks become schedulable at once (at most W unfinished tasks of the
+        pool are runnable at a time, in submission order); the caller goes on."""
         tasks = list(iterable)
         self.calls += 1
         results: dict[int, object] = {}
         errors: dict[int, BaseException] = {}
         children: list[Task] = []
-        running = {"n": 0, "next": 0}
 
         def make(i):
             f = _pickle_roundtrip(func) if not _has_fake(func) else _fork_copy_callable(func)
@@ -451,20 +475,65 @@ class FakePool:
 
             return body
 
-        # at most W tasks in flight: task i may start only when < W unfinished
+        # at most W tasks of this pool in flight: a task may start only when
+        # fewer than W earlier-submitted tasks of the pool are unfinished
         for i in range(len(tasks)):
+            before = list(self.children)
             t = self.s.spawn(f"pool{self.id}.{self.calls}.{i}", make(i), kind="poolworker")
+            t.options_fn = (lambda before=before: [None] if sum(not c.done for c in before) < self.W else [])
             children.append(t)
-            if i >= self.W:
-                # wait until one of the earlier ones has finished
-                self.s.point(
-                    ("pool-dispatch", self.id),
-                    lambda i=i: [None] if sum(not c.done for c in children[:i]) < self.W else [],
-                )
-        self.s.point(("map-wait", self.id), lambda: [None] if all(c.done for c in children) else [])
-        if errors:
-            raise errors[min(errors)]
-        return [_pickle_roundtrip(results[i]) for i in range(len(tasks))]
+            self.children.append(t)
+        return _AsyncResult(self, children, results, errors, len(tasks))
+
+
+class _Star:
+    def __init__(self, func):
+        self.func = func
+
+    def __call__(self, args):
+        return self.func(*args)
+
+
+class _Apply:
+    def __init__(self, func, kwds):
+        self.func, self.kwds = func, kwds
+
+    def __call__(self, args):
+        return self.func(*args, **self.kwds)
+
+
+class _AsyncResult:
+    def __init__(self, pool, children, results, errors, n) -> None:
+        self.pool, self.children, self.results, self.errors, self.n = pool, children, results, errors, n
+
+    def ready(self) -> bool:
+        return all(c.done for c in self.children)
+
+    def wait(self, timeout=None) -> None:
+        self.pool.s.point(("map-wait", self.pool.id), lambda: [None] if self.ready() else [])
+
+    def get(self, timeout=None):
+        self.wait()
+        if self.errors:
+            raise self.errors[min(self.errors)]
+        return [_pickle_roundtrip(self.results[i]) for i in range(self.n)]
+
+    def successful(self) -> bool:
+        return self.ready() and not self.errors
+
+
+class _Single:
+    def __init__(self, res):
+        self.res = res
+
+    def get(self, timeout=None):
+        return self.res.get()[0]
+
+    def wait(self, timeout=None):
+        self.res.wait()
+
+    def ready(self):
+        return self.res.ready()
 
 
 def _has_fake(func) -> bool:
